@@ -36,7 +36,7 @@ theorem storeSaveR_mono {st : Store} {a : Stored} (ha : st.highest = some a) (re
   · exact ⟨a, by simpa using ha, Mono.refl a⟩
   · cases hr : replacesR st.highest { rec with inst := { trim rec.inst with stopped := false } }
     · exact ⟨a, by simpa using ha, Mono.refl a⟩
-    · refine ⟨_, by simp, ?_⟩
+    · refine ⟨{ rec with inst := { trim rec.inst with stopped := false } }, by simp, ?_⟩
       rw [ha] at hr
       unfold replacesR at hr
       simp only at hr
